@@ -18,7 +18,7 @@ func init() {
 		"conversions reached through operators and builtin arguments; observable: result bits (one NaN), strings, booleans; non-trivial: input outside {0,1,'','0','1'}"
 	rules["C05"] = "operand pairs over the four types: node-sets of 0-4 nodes (numeric, non-numeric, whitespace-padded, '10' vs '9' texts and attributes), numbers incl. NaN/inf/-0, strings, booleans; both orders x six operators; " +
 		"derived identities on the implementation (L<R == R>L, L<=R == R>=L, symmetry of = and !=); non-trivial: operand types differ or a node-set has >= 2 nodes"
-	rules["C06"] = "pairs/tuples of doubles by class through variables and numeric literals x (+ - * div mod, unary -), floor/ceiling/round, sum/count over node-sets of numeric and non-numeric text; observable: result bit pattern (one NaN); " +
+	rules["C06"] = "pairs/tuples of doubles by class through variables and numeric literals x (+ - * div mod, unary -), floor/ceiling/round, the same operators and functions over STRING operands from the Number-grammar pool (incl. numerals padded with non-XML white space such as U+00A0), sum/count over node-sets of numeric and non-numeric text; observable: result bit pattern (one NaN); " +
 		"round() of a negative tie is compared with the library's documented-by-test behaviour and reported as the known finding; non-trivial: an operand is not a small non-negative integer"
 	rules["C07"] = "strings from a Unicode pool (ASCII, 2/3/4-byte, combining marks, NBSP and other non-XML whitespace, empty) as variables and literals x positions/lengths by double class x the nine string functions incl. zero-argument forms; " +
 		"observable: result string/number/boolean and utf8.ValidString; non-trivial: an argument is non-ASCII or a numeric argument is not a small integer"
@@ -129,9 +129,16 @@ func famC04(rn *Runner) {
 	// (c) string-values of every node; node-set conversions
 	for di := 0; di < rn.Scale(8, 120) && !rn.TooMany(); di++ {
 		d := rn.genDoc(rn.Scale(50, 140))
-		env := stdEnv()
+		env := envShuffled(rn, d)
 		g := NewExprGen(rn.R.Fork(), d, env)
-		for _, p := range d.Paths {
+		uo := unorderedOperands(rn)
+		for pi, p := range d.Paths {
+			// node-sets whose stored order is not document order; attributes and namespace nodes of one element together
+			for k := 0; k < 3; k++ {
+				a := uo[(pi*3+k)%len(uo)]
+				f := pick(rn.R, []string{"string", "number", "string", "normalize-space", "string-length"})
+				rn.scalar(d, env, p, call(f, a), "nodeset-conversion-unordered", "node-set -> string/number uses the first node in document order, whatever the stored order", true)
+			}
 			rn.scalar(d, env, p, call("string", &EPath{Steps: []*Stp{{Axis: "self", Test: NodeTest{Kind: "node"}, Abbrev: true}}}), "string-value", "string-value of a node", true)
 			// GetCursorString directly
 			got := "S " + showStr(xsel.GetCursorString(cursorAt(d.Root, p)))
@@ -187,7 +194,7 @@ func classOf(f float64) string {
 func operandPool(rn *Runner, d *Doc, g *ExprGen) []Expr {
 	ops := []Expr{
 		num("1"), num("2"), num("10"), num("9"), num("0"), num("3.5"), &ENeg{num("4")}, bin("div", num("0"), num("0")), bin("div", num("1"), num("0")), bin("div", &ENeg{num("1")}, num("0")), &ENeg{num("0")},
-		lit("1"), lit("10"), lit("9"), lit(" 12 "), lit("abc"), lit(""), lit("NaN"), lit("1e3"), lit("b"), lit("-4"), lit("x y"), lit("true"),
+		lit("1"), lit("10"), lit("9"), lit(" 12 "), lit("abc"), lit(""), lit("NaN"), lit("1e3"), lit("b"), lit("-4"), lit("x y"), lit("true"), lit("\u00a09"), lit("10\u2003"),
 		call("true"), call("false"),
 		&EPath{Abs: true, Steps: []*Stp{{Axis: "child", Test: NodeTest{Kind: "name", Local: "nope"}}}}, // empty
 		&EPath{Abs: true, Steps: []*Stp{{Axis: "descendant", Test: NodeTest{Kind: "text"}}}},
@@ -279,6 +286,19 @@ func famC06(rn *Runner) {
 		e := bin(pick(rn.R, arOps), num(t1), num(t2))
 		rn.scalar(d, &Env{}, Path{}, e, "numeric-literals", "literal parsing and arithmetic", true)
 		rn.scalar(d, &Env{}, Path{}, num(t1), "numeric-literals", "literal parsing", true)
+	}
+	// operands that are strings: converted as by number() (the Number grammar with XML white space only)
+	for i, sv := range numberStrings {
+		env := &Env{Vars: []VarBind{strVar("s", sv), numVar("b", g.Double())}}
+		nt := !isASCII(sv) || i%2 == 0
+		for _, op := range arOps {
+			rn.scalar(d, env, Path{}, bin(op, v("s"), v("b")), "string-operands", "operands are converted with number()", nt)
+			rn.scalar(d, env, Path{}, bin(op, num("7"), v("s")), "string-operands", "operands are converted with number()", nt)
+		}
+		rn.scalar(d, env, Path{}, &ENeg{v("s")}, "string-operands", "unary minus converts with number()", nt)
+		for _, f := range []string{"floor", "ceiling", "round"} {
+			rn.scalar(d, env, Path{}, call(f, v("s")), "string-operands", f+" converts with number()", nt)
+		}
 	}
 	rn.DropDoc(d)
 	// sum and count over node-sets
